@@ -180,14 +180,14 @@ impl WebAnnoConfig {
                 out += &format!(
                     "[ \"{}\", {}, {{ {} }} ]",
                     CONTEXT_ANNO,
-                    self.extra_context.join(", "),
+                    self.serialize_extra_context(),
                     self.serialize_context_namespaces(),
                 );
             } else {
                 out += &format!(
                     "[ \"{}\", {} ]",
                     CONTEXT_ANNO,
-                    self.extra_context.join(", ")
+                    self.serialize_extra_context()
                 );
             }
         } else if !self.context_namespaces.is_empty() {
@@ -200,6 +200,15 @@ impl WebAnnoConfig {
             out += &format!("\"{}\"", CONTEXT_ANNO);
         }
         out
+    }
+
+    /// The extra context URLs as JSON strings, comma separated
+    fn serialize_extra_context(&self) -> String {
+        self.extra_context
+            .iter()
+            .map(|url| format!("\"{}\"", url))
+            .collect::<Vec<_>>()
+            .join(", ")
     }
 
     fn serialize_context_namespaces(&self) -> String {
